@@ -210,6 +210,7 @@ def run_case(src, fmt, opts, tmp, with_queries, out, cfg, seen):
         with contextlib.redirect_stdout(io.StringIO()):
             sdn.compose(n, f1, **opts)
     except EXC as e:
+        forget(objs)
         return 'not-composable:' + type(e).__name__
     fd1 = fds()
     try:
@@ -223,10 +224,10 @@ def run_case(src, fmt, opts, tmp, with_queries, out, cfg, seen):
         still = fds() - fd0
         fail('C16.open-handle', osite + (':until-gc' if not still else ':leaked'),
              '%d descriptor(s) still open when compose returned%s' % (len(fd1 - fd0), '' if still else ' (closed only by the garbage collector)'))
-    gc.collect()
-    t1b = open(f1).read()
-    if t1b != t1:
-        fail('C16.incomplete', osite + ':late-flush', 'file content grew from %d to %d characters after the call returned' % (len(t1), len(t1b)))
+    if fd1 - fd0:
+        t1b = open(f1).read()       # after the collection above: did a late close flush more text?
+        if t1b != t1:
+            fail('C16.incomplete', osite + ':late-flush', 'file content grew from %d to %d characters after the call returned' % (len(t1), len(t1b)))
     if not complete(fmt, t1):
         fail('C16.incomplete', osite + ':closing-token', 'output does not end with its closing construct: ...%r' % t1.rstrip()[-30:])
     objs_after = irlib.closure([n])
@@ -259,7 +260,18 @@ def run_case(src, fmt, opts, tmp, with_queries, out, cfg, seen):
     if after2 != after:
         d = irlib.diff_snap(after, after2)
         fail('C16.second-frame', '%s:%s:%s' % (fmt, d[0][1], d[0][2]) if d else fmt, 'the second compose changed the netlist again: %r' % (d[:2],))
+    forget(objs)
     return 'composed'
+
+
+def forget(objs):
+    """Harness hygiene only: the namespace manager keeps every netlist alive (its WeakKeyDictionary values refer back to the
+    keys), which makes long runs quadratic.  Drop the tables of the netlist that is no longer used."""
+    try:
+        for o in objs:
+            NM.namespaces.pop(o, None)
+    except Exception:
+        pass
 
 
 def run_source(src, out, cfg, tmp, seen, only=None):
@@ -274,6 +286,7 @@ def run_source(src, out, cfg, tmp, seen, only=None):
     if top in defnames:
         defnames.remove(top); defnames.insert(0, top)
     nobj = len(irlib.closure([probe]))
+    forget(irlib.closure([probe]))
     for fmt in ('edf', 'v', 'eblif'):
         for opts in option_sets(fmt, defnames):
             wq = r.random() < 0.5
